@@ -358,9 +358,13 @@ def _r8(ctx, pkg):
     a copy silently falls back to the tables."""
     fn = pkg.cls("Component").methods.get("_create_species")
     if fn is None:
+        # under another name, by role: the one method of Component that constructs a Species
+        making = [m for m in pkg.cls("Component").methods.values() if any(isinstance(c, ast.Call) and isinstance(c.func, ast.Name) and c.func.id == "Species" for c in ast.walk(m))]
+        fn = making[0] if len(making) == 1 else None
+    if fn is None:
         ctx.missing("R8", "Component._create_species", ("naunet/component.py", 0), "method vanished")
         return
-    ctx.saw("naunet/component.py", "Component._create_species")
+    ctx.saw("naunet/component.py", f"Component.{fn.name}")
     arg = fn.args.args[1].arg if len(fn.args.args) > 1 else None
     # by facts, whatever the control flow (guard clause, if/else, conditional expression): on every path where the argument IS
     # a Species instance the method returns the argument itself
@@ -368,7 +372,7 @@ def _r8(ctx, pkg):
     INST = ("call", ("global", "isinstance"), (("param", arg), ("global", "Species")), ())
 
     def _priv(name):
-        return pkg.resolve("Component", name)[1] if name.startswith("_") and not name.startswith("__") and name != "_create_species" else None
+        return pkg.resolve("Component", name)[1] if name.startswith("_") and not name.startswith("__") and name != fn.name else None
     rets = [f for f in Flow(fn, "naunet/component.py", resolver=_priv).facts if f.kind == "return"]
     on_inst = []
     for f in rets:
